@@ -127,14 +127,20 @@ func npmCandidate(req string, v V) bool {
 
 // refSeq replays the sequence on the map reference and compares every observation.
 func refSeq(ops []SeqOp, obs []string) (bool, string) {
+	bad, detail, _ := refSeqAt(ops, obs)
+	return bad, detail
+}
+
+// refSeqAt also returns the index of the first op whose observation is wrong.
+func refSeqAt(ops []SeqOp, obs []string) (bad bool, detail string, at int) {
 	rc := &refClient{m: map[vkey]entry{}, known: map[pkey]bool{}}
 	if len(obs) != len(ops) {
-		return true, "observation count differs from op count"
+		return true, "observation count differs from op count", -1
 	}
 	for i, o := range ops {
 		got := obs[i]
-		fail := func(format string, a ...any) (bool, string) {
-			return true, fmt.Sprintf("op %d (%s): ", i, o.Kind) + fmt.Sprintf(format, a...)
+		fail := func(format string, a ...any) (bool, string, int) {
+			return true, fmt.Sprintf("op %d (%s): ", i, o.Kind) + fmt.Sprintf(format, a...), i
 		}
 		p := pkey{o.Sys, o.Name}
 		ss := resolveops.Semver(o.Sys)
@@ -275,7 +281,66 @@ func refSeq(ops []SeqOp, obs []string) (bool, string) {
 			}
 		}
 	}
-	return false, ""
+	return false, "", -1
+}
+
+// classify: negations of the hypotheses of the partial theorems in Props/C14.lean, as
+// predicates on the history.
+//
+//	F-C14-latest-substr ¬HistoryTagsExact: some non-deleted npm addition has a tag string that
+//	                     contains "latest" other than as a whole tag (C12: F-C12-latest-substr).
+//	F-C14-mvn-intrans   ¬HistoryLawful: the ecosystem order is not a total order on the versions
+//	                     added for some Maven package (C12: F-C12-mvn-intrans).
+//
+// Only the order/selection of a listing can be affected: the failing call must be a Versions
+// or MatchingVersions call on a package of that system.
+func classify(oracle string, ops, res []string) string {
+	f := strings.Fields(ops[0])
+	rf := strings.Fields(res[0])
+	if oracle != "ref" || len(f) != 3 || len(rf) != 2 || rf[0] != "ok" {
+		return ""
+	}
+	seq := resolveops.DecSeq(f[2])
+	bad, _, at := refSeqAt(seq, strings.Split(rf[1], ";"))
+	if !bad || at < 0 || (seq[at].Kind != "vers" && seq[at].Kind != "match") {
+		return ""
+	}
+	switch seq[at].Sys {
+	case resolve.NPM:
+		if !historyTagsExact(seq) {
+			return "F-C14-latest-substr"
+		}
+	case resolve.Maven:
+		if !historyLawful(seq) {
+			return "F-C14-mvn-intrans"
+		}
+	}
+	return ""
+}
+
+func historyTagsExact(seq []SeqOp) bool {
+	for _, o := range seq {
+		if o.Kind == "add" && o.Sys == resolve.NPM && !o.V.Deleted && !resolveops.TagsExact([]V{o.V}) {
+			return false
+		}
+	}
+	return true
+}
+
+func historyLawful(seq []SeqOp) bool {
+	added := map[pkey][]string{}
+	for _, o := range seq {
+		if o.Kind == "add" && o.Sys == resolve.Maven && !o.V.Deleted {
+			p := pkey{o.Sys, o.Name}
+			added[p] = append(added[p], o.Ver)
+		}
+	}
+	for p, vs := range added {
+		if !resolveops.Lawful(resolveops.Semver(p.sys), vs) {
+			return false
+		}
+	}
+	return true
 }
 
 func recheck(oracle string, ops, res []string) (bool, string) {
@@ -314,7 +379,8 @@ var reqPool = map[resolve.System][]string{
 }
 
 type genOpts struct {
-	ext bool // outside the property's quantifier: correspondence only
+	ext  bool // outside the property's quantifier: correspondence only
+	find bool // include inputs of the two known finding classes
 }
 
 func genAttrs(r *rand.Rand, v *V, o genOpts) {
@@ -323,7 +389,7 @@ func genAttrs(r *rand.Rand, v *V, o genOpts) {
 		v.HasTags, v.Tags = true, "latest"
 	case k < 5:
 		v.HasTags, v.Tags = true, semverops.Pick(r, "next", "beta,next", "", "latest,next", "next,latest")
-	case k == 5 && o.ext:
+	case k == 5 && (o.ext || o.find):
 		v.HasTags, v.Tags = true, semverops.Pick(r, "notlatest", "latest-2", "prelatest,next")
 	}
 	v.Blocked = r.Intn(4) == 0
@@ -400,7 +466,7 @@ func genSeq(r *rand.Rand, maxOps int, o genOpts) []SeqOp {
 			if o.ext && r.Intn(15) == 0 {
 				op.Type = resolve.Requirement
 			}
-			if o.ext && op.Sys == resolve.Maven && r.Intn(4) == 0 {
+			if (o.ext || o.find) && op.Sys == resolve.Maven && r.Intn(4) == 0 {
 				op.Ver = semverops.Pick(r, "4.1", "4.1-jre", "4.1.0.Beta1", "1.0-jre", "1.0.0.RC1")
 			}
 			op.V = V{Sys: op.Sys, Name: op.Name, Type: op.Type, Version: op.Ver}
@@ -480,6 +546,12 @@ func stats(c *fw.Ctx, ops []SeqOp, res string) {
 	if repl > 0 {
 		c.Count("seq:with-replacement")
 	}
+	if !historyTagsExact(ops) {
+		c.Count("seq:latest-substring")
+	}
+	if !historyLawful(ops) {
+		c.Count("seq:maven-unlawful")
+	}
 	if del > 0 {
 		c.Count("seq:with-deleted")
 	}
@@ -538,8 +610,8 @@ func run(c *fw.Ctx) {
 	rec(nil)
 
 	// 2. random histories inside the property's quantifier
-	for it := 0; it < c.N(6000, 300000); it++ {
-		ops := genSeq(r, 45, genOpts{})
+	for it := 0; it < c.N(14000, 300000); it++ {
+		ops := genSeq(r, 45, genOpts{find: it%8 == 7})
 		if r.Intn(2) == 0 {
 			ops = probes(ops)
 		}
@@ -557,7 +629,7 @@ func run(c *fw.Ctx) {
 	// 3. correspondence only: inputs in C12's finding classes (substring look-alikes of
 	// "latest", Maven's intransitive shapes), Requirement-typed additions, requirements of
 	// mixed systems
-	for it := 0; it < c.N(1500, 40000); it++ {
+	for it := 0; it < c.N(3000, 40000); it++ {
 		ops := genSeq(r, 40, genOpts{ext: true})
 		c.Opf("C14 seq %s", resolveops.EncSeq(ops))
 		c.Count("ext")
@@ -569,8 +641,8 @@ func exec(f []string) string { return resolveops.ExecC14(f) }
 func main() {
 	fw.Main(&fw.Prop{
 		ID: "C14",
-		Rule: "one op line = one history of ≤ 60 calls on a fresh LocalClient: AddVersion (new keys; repeated keys with changed attributes/requirements; deleted-flagged; NPM/Maven/PyPI, 30% of histories mix systems; collision-rich version pools with equal-comparing spellings and unparsable strings; tags latest/next/…, deprecated, error; 0..8 requirements with dev/opt/KnownAs and case-variant names) interleaved with Version/Versions/Requirements/MatchingVersions on added, mentioned and never-added keys; half of the histories end with a probe of every key and package touched. Oracle ref = a map-based reference in the harness (independent of util/resolve's client and matching code; ordering and matching through util/semver) compared observation by observation. Plus every history of ≤ 4 additions over a five-letter alphabet followed by all queries, and a correspondence-only stream outside the quantifier. Distinct non-trivial = distinct histories that replace an existing key.",
-		Exec: exec, Run: run, Recheck: recheck,
+		Rule: "one op line = one history of ≤ 60 calls on a fresh LocalClient: AddVersion (new keys; repeated keys with changed attributes/requirements; deleted-flagged; NPM/Maven/PyPI, 30% of histories mix systems; collision-rich version pools with equal-comparing spellings and unparsable strings; tags latest/next/…, deprecated, error; 0..8 requirements with dev/opt/KnownAs and case-variant names) interleaved with Version/Versions/Requirements/MatchingVersions on added, mentioned and never-added keys; half of the histories end with a probe of every key and package touched. Oracle ref = a map-based reference in the harness (independent of util/resolve's client and matching code; ordering and matching through util/semver) compared observation by observation. Plus every history of ≤ 4 additions over a five-letter alphabet followed by all queries, one history in eight also draws from the two known finding classes (tag strings containing 'latest' other than as a tag; Maven's intransitive shapes), and a correspondence-only stream outside the quantifier (Requirement-typed additions, requirements of mixed systems). Distinct non-trivial = distinct histories that replace an existing key.",
+		Exec: exec, Run: run, Recheck: recheck, Classify: classify,
 		Gens: semvergen.Generators(),
 	})
 }
